@@ -290,7 +290,9 @@ def judge_simplex(case, out, orc):
             return f"negative component in {x}"
         for i, row in enumerate(A):
             lhs = sum(a * v for a, v in zip(row, x))
-            if lhs > b[i] + TOL * (1 + abs(b[i])):
+            # relative residual: the tolerance scales with the magnitude of the row's terms (a row multiplied by 2^30 is the same
+            # constraint; the float evaluation of a.x alone carries |a||x| * 1e-16)
+            if lhs > b[i] + TOL * (1 + abs(b[i]) + sum(abs(a * v) for a, v in zip(row, x))):
                 return f"row {i} violated: {lhs} > {b[i]}"
         cx = sum(a * v for a, v in zip(c, x))
         if abs(cx - out["objective"]) > TOL * (1 + abs(cx)):
